@@ -128,6 +128,38 @@ if set(dr.COMPONENTS[GROUP][point]) != set(dr.get_dependencies(point)) or (late_
     fail(violation="a dependency attached after registration is missing from the registered group graph: evaluating the group differs from "
                    "evaluating the dependency graph", group_edges=sorted(x.__name__ for x in dr.COMPONENTS[GROUP][point]),
          declared=sorted(x.__name__ for x in dr.get_dependencies(point)))
+# ---- the same set of components evaluated again after an edge was added between two of them (what registering one more implementation of a
+# registry point does): every driver must give what an order that respects the NEW dependencies gives (forced through run_components)
+def mkv(name, *deps):
+    def body(*args):
+        return (name,) + tuple(args)
+    body.__name__ = body.__qualname__ = name
+    body.__module__ = "verif_sched_edge"
+    return component(*deps)(body)
+
+
+for _round in range(2):
+    ea = mkv("ea")
+    eb0 = mkv("eb0", ea)
+    eb = mkv("eb", eb0)
+    ec = mkv("ec", [ea])
+    etop = mkv("etop", ec, eb)
+    eset = [ea, eb0, eb, ec, etop]
+    g1 = dict((x, set(dr.get_dependencies(x))) for x in eset)
+    dr.run(dict(g1), broker=dr.Broker())
+    list(dr.run_incremental(dict(g1), broker=dr.Broker()))
+    dr.add_dependency(ec, eb)
+    g2 = dict((x, set(dr.get_dependencies(x))) for x in eset)
+    forced = dr.run_components([ea, eb0, eb, ec, etop], dict(g2), dr.Broker())
+    want = dict((x.__name__, forced.get(x)) for x in eset)
+    variants = {"single_pass": dr.run(dict(g2), broker=dr.Broker()),
+                "incremental": list(dr.run_incremental(dict(g2), broker=dr.Broker()))[0],
+                "pooled": dr.run_all(dict(g2), broker=dr.Broker(), pool=pool)[0]}
+    for vname, bk in variants.items():
+        got = dict((x.__name__, bk.get(x)) for x in eset)
+        if got != want or sorted(c.__name__ for c in bk.missing_requirements) != sorted(c.__name__ for c in forced.missing_requirements):
+            fail(violation="after an edge was added between two components of an already evaluated set, the evaluation differs from an order that "
+                           "respects the dependencies", driver=vname, got=got, want=want)
 pool.shutdown()
 if DIGEST_ONLY:
     print(h.hexdigest())
